@@ -15,10 +15,14 @@ TECHNIQUE = ("explicit-state breadth-first search over operation histories on "
              "the real memory views with a bounded-file reference model and "
              "an access-confinement monitor")
 RULE = ("alphabet: seek(n, whence) n in {-2,-1,0,1,3,5} whence in {0,1,2,3}; "
-        "read(k) k in {default,-1,0,1,2,5}; write of 0/1/2/5 marker bytes; "
+        "read(k) k in {default,-1,-2,-1000,0,1,2,5}; write of 0/1/2/5 marker "
+        "bytes; transfers and free() whose controller command fails; "
         "slices v[a:b] a,b in {None,-5,-1,0,1,3,5}, v[::2], v[1]; tell, len, "
         "address, flush, close, with, free; on every live view (<=3 views); "
-        "root views of length 0, 1, 4 at an unaligned base. States are "
+        "root views of length 0, 1, 4 at an unaligned base; part big: "
+        "600-byte view, transfers of 254..1024 bytes, depth 2 (thorough 3); "
+        "part overlap: every span x every overlapping block of 8 bytes, read "
+        "/ write through another view / read again. States are "
         "canonical (view bounds/offset/closed, freed, region bytes); a "
         "transition is non-trivial when it moves data, the position or "
         "creates/closes a view")
